@@ -262,6 +262,144 @@ class ClosureDesugar(Rewrite):
         return text
 
 
+def _receiver_start(toks, dot):
+    """toks[dot] is the `.` of a method call; index of the first token of the receiver (maximal postfix chain)."""
+    k = dot - 1
+    while k >= 0:
+        t = toks[k]
+        if t.text in (')', ']'):
+            d = 0
+            while k >= 0:
+                if toks[k].text in (')', ']', '}'): d += 1
+                elif toks[k].text in ('(', '[', '{'):
+                    d -= 1
+                    if d == 0: break
+                k -= 1
+            k -= 1; continue
+        if t.kind in ('ident', 'num') and t.text not in ('let', 'return', 'if', 'match', 'in', 'else', 'mut'):
+            k -= 1; continue
+        if t.text in ('.', '::', '?'):
+            k -= 1; continue
+        if t.text == '&' and k + 1 < dot and toks[k + 1].kind == 'ident' and (k == 0 or toks[k - 1].text in ('(', ',', '=', '{', ';')):
+            k -= 1; continue     # `&x.y` as a whole receiver (call argument position)
+        break
+    return k + 1
+
+
+class ClosureMatch(Rewrite):
+    """R-closure (general): `RECV.method(|PAT| BODY)` => the `match` that defines the std combinator, with the closure's
+    pattern and body copied verbatim. kind selects the combinator's definition:
+      opt.map opt.and_then opt.or_else opt.ok_or_else opt.unwrap_or_else opt.is_some_and opt.is_none_or res.map res.map_err res.and_then
+    Laziness of BODY is preserved (it sits in a match arm). A combinator call whose argument is not a closure literal is left alone."""
+    rule = 'R-closure'
+    TEMPLATES = {
+        'opt.map': '(match {recv} {{ Some({pat}) => Some({body}), None => None }})',
+        'opt.and_then': '(match {recv} {{ Some({pat}) => {body}, None => None }})',
+        'opt.or_else': '(match {recv} {{ Some(x__) => Some(x__), None => {body} }})',
+        'opt.ok_or_else': '(match {recv} {{ Some(x__) => Ok(x__), None => Err({body}) }})',
+        'opt.unwrap_or_else': '(match {recv} {{ Some(x__) => x__, None => {body} }})',
+        'opt.is_some_and': '(match {recv} {{ Some({pat}) => {body}, None => false }})',
+        'opt.is_none_or': '(match {recv} {{ Some({pat}) => {body}, None => true }})',
+        'res.map': '(match {recv} {{ Ok({pat}) => Ok({body}), Err(e__) => Err(e__) }})',
+        'res.map_err': '(match {recv} {{ Ok(x__) => Ok(x__), Err({pat}) => Err({body}) }})',
+        'res.and_then': '(match {recv} {{ Ok({pat}) => {body}, Err(e__) => Err(e__) }})',
+    }
+    def __init__(self, kind, count=1, nth=None):
+        self.kind, self.count, self.nth = kind, count, nth
+        self.method = kind.split('.')[1]
+    def _hits(self, toks):
+        out = []
+        for i, t in enumerate(toks):
+            if t.text == self.method and i > 0 and toks[i - 1].text == '.' and i + 2 < len(toks) and toks[i + 1].text == '(' and toks[i + 2].text == '|':
+                out.append(i)
+        return out
+    def apply(self, text, log):
+        n = 0
+        while True:
+            toks = code_tokens(text)
+            hits = self._hits(toks)
+            if self.nth is not None:
+                hits = hits[self.nth:self.nth + 1] if n == 0 else []
+            if not hits:
+                break
+            i = hits[0]
+            close = match_close(toks, i + 1)
+            # closure parameter pattern: tokens between the two `|`
+            j = i + 3; d = 0
+            while not (toks[j].text == '|' and d == 0):
+                if toks[j].text in OPEN: d += 1
+                elif toks[j].text in CLOSE: d -= 1
+                j += 1
+            pat = text[toks[i + 3].start:toks[j - 1].end].strip() if j > i + 3 else ''
+            body = text[toks[j].end:toks[close].start].strip()
+            start = toks[_receiver_start(toks, i - 1)].start
+            recv = text[start:toks[i - 1].start].strip()
+            new = self.TEMPLATES[self.kind].format(recv=recv, pat=pat, body=body)
+            text = text[:start] + new + text[toks[close].end:]
+            n += 1
+        ok = (self.count == '*') or (self.count == '+' and n >= 1) or (self.count == n)
+        if not ok:
+            raise AnchorLost(f'rewrite R-closure expected {self.count} `.{self.method}(|..| ..)` [{self.kind}] but found {n}')
+        log.append((self.rule, f'.{self.method}(|..| ..) [{self.kind}] desugared to its defining match', n))
+        return text
+
+
+class IterFind(Rewrite):
+    """R-find: `RECV.iter().find(|PAT| BODY)` => `HELPER(REF RECV, |p__: &&T| -> (b: bool) ensures b == (SPEC) { let PAT = p__; BODY })`.
+    HELPER is a trusted shim carrying std's contract of Iterator::find on a slice iterator (first element satisfying the
+    predicate); the closure body is the real text and is verified against the spliced closure contract SPEC (over `p__`)."""
+    rule = 'R-find'
+    def __init__(self, helper, elem_ty, spec, ref='', count=1):
+        self.helper, self.elem_ty, self.spec, self.ref, self.count = helper, elem_ty, spec, ref, count
+    def apply(self, text, log):
+        toks = code_tokens(text)
+        hits = [i for i, t in enumerate(toks) if t.text == 'find' and i >= 5 and [x.text for x in toks[i - 5:i]] == ['.', 'iter', '(', ')', '.']]
+        hits = [i for i in hits if i + 2 < len(toks) and toks[i + 1].text == '(' and toks[i + 2].text == '|']
+        if len(hits) != self.count:
+            raise AnchorLost(f'rewrite R-find expected {self.count} `.iter().find(|..| ..)` but found {len(hits)}')
+        i = hits[0]
+        close = match_close(toks, i + 1)
+        j = i + 3; d = 0
+        while not (toks[j].text == '|' and d == 0):
+            if toks[j].text in OPEN: d += 1
+            elif toks[j].text in CLOSE: d -= 1
+            j += 1
+        pat = text[toks[i + 3].start:toks[j - 1].end].strip()
+        body = text[toks[j].end:toks[close].start].strip()
+        dot_iter = i - 5
+        start = toks[_receiver_start(toks, dot_iter)].start
+        recv = text[start:toks[dot_iter].start].strip()
+        new = (f'{self.helper}({self.ref}{recv}, |p__: &&{self.elem_ty}| -> (b: bool) ensures b == ({self.spec}) '
+               f'{{ let {pat} = p__; {body} }})')
+        log.append((self.rule, f'.iter().find(|{pat}| ..) => {self.helper}(.., closure with contract)', 1))
+        return text[:start] + new + text[toks[close].end:]
+
+
+class PostfixCall(Rewrite):
+    """`RECV.method()` => `helper(RECV)` for a no-argument method (e.g. Option<&T>::cloned => opt_cloned): the helper is the
+    method's definition with a Verus contract."""
+    def __init__(self, method, helper, count=1, rule='R-closure'):
+        self.method, self.helper, self.count, self.rule = method, helper, count, rule
+    def apply(self, text, log):
+        n = 0
+        while True:
+            toks = code_tokens(text)
+            hit = None
+            for i, t in enumerate(toks):
+                if t.text == self.method and i > 0 and toks[i - 1].text == '.' and i + 2 < len(toks) and toks[i + 1].text == '(' and toks[i + 2].text == ')':
+                    hit = i; break
+            if hit is None: break
+            start = toks[_receiver_start(toks, hit - 1)].start
+            recv = text[start:toks[hit - 1].start].strip()
+            text = text[:start] + f'{self.helper}({recv})' + text[toks[hit + 2].end:]
+            n += 1
+        ok = (self.count == '*') or (self.count == '+' and n >= 1) or (self.count == n)
+        if not ok:
+            raise AnchorLost(f'rewrite {self.rule} expected {self.count} `.{self.method}()` but found {n}')
+        log.append((self.rule, f'.{self.method}() => {self.helper}(..)', n))
+        return text
+
+
 class LetChain(Rewrite):
     """R-letchain: `if let P1 = E1 && let P2 = E2 && C { A } [else { B }]` =>
     `match E1 { P1 => match E2 { P2 => if C { A } else { B }, _ => { B } }, _ => { B } }` -- the language-defined meaning of a
@@ -326,7 +464,7 @@ class LetChain(Rewrite):
                 if kind == 'let':
                     out = f'match {expr} {{ {pat} => {out}, _ => {els} }}'
                 else:
-                    out = f'{{ if {expr} {out} else {els} }}'
+                    out = f'{{ if {expr} {{ {out} }} else {els} }}'
             return text[:t.start] + out + text[end:], True
         return text, False
 
@@ -682,7 +820,7 @@ class Unit:
     # -- assembly
     def assemble(self, canary=False):
         """Returns (text, linemap) ; linemap[line_no(1-based)] = (chunk_index, part, is_canary_copy)."""
-        out = ['use vstd::prelude::*;', '#[allow(unused_imports)] use std::fmt::Write;', '#[allow(unused_imports)] use std::fmt;', 'verus! {', '']
+        out = ['use vstd::prelude::*;', '#[allow(unused_imports)] use vstd::std_specs::iter::IteratorSpec;', '#[allow(unused_imports)] use std::fmt::Write;', '#[allow(unused_imports)] use std::fmt;', 'verus! {', '']
         lm = {}
         def emit(ci, ch, rename=None, extra_ensures=None):
             lines = list(ch.lines)
